@@ -65,7 +65,9 @@ CHECKS["C10"] = dict(
     design_ref="DESIGN.md section 7 C10",
     note="The Earley algorithm itself (predict/scan/complete, forest extraction) is NOT modelled: its soundness/completeness is validated per "
     "explored input against the proved reference (translation-validation style), not proved. Grammars with cyclic unit/nullable derivations "
-    "are excluded as in the property. A recognizer answer `none` (fixpoint not certified) would be counted as oracle-unknown (never observed).",
+    "are excluded as in the property. A recognizer answer `none` (fixpoint not certified) would be counted as oracle-unknown (never observed). "
+    "Each call of the real parser runs under a soft address-space limit (+2 GB) and a 120 s alarm: MemoryError is reported like any other exception "
+    "(replayable), an input without an answer within the alarm yields no verdict and is counted in the evidence, never reported.",
     technique="Lean 4 theorems about a reference recognizer/tree checker + exhaustive-up-to-length differential validation of the real parser",
 )
 
